@@ -250,6 +250,32 @@ func (g *RotGate) Release() {
 	g.mu.Unlock()
 }
 
+// Settle waits until a rotation that the last call queued has either arrived at the gate
+// (and is held) or, when the gate lets it pass, has finished - so that what the driver does
+// next does not depend on how fast the rotation goroutine was scheduled. triggered/finished
+// are read through the function the caller passes (hooks.Rotations). Returns false when
+// neither happened within the watchdog.
+func (g *RotGate) Settle(rotations func() (triggered, finished, exited int64), watchdog time.Duration) bool {
+	var deadline time.Time
+	for i := 0; ; i++ {
+		t, f, x := rotations()
+		if f >= t || x > 0 || g.Holding() {
+			return true
+		}
+		if i < 200 {
+			runtime.Gosched()
+			continue
+		}
+		if deadline.IsZero() {
+			deadline = time.Now().Add(watchdog)
+		}
+		if time.Now().After(deadline) {
+			return false
+		}
+		time.Sleep(20 * time.Microsecond)
+	}
+}
+
 // Holding reports whether a rotation is currently held.
 func (g *RotGate) Holding() bool {
 	g.mu.Lock()
